@@ -19,7 +19,9 @@ LEVEL_NOTE = ("finite tables (commands, rule ids, filters, extension map) are re
 DATA = core.VERIF / "harness" / "data"
 CONTENT = {k: (DATA / f"trig.{k}.txt").read_text() for k in ("py", "ts", "rs")}
 EXTS = [".py", ".PY", ".Py", ".ts", ".TS", ".tsx", ".TSX", ".js", ".JS", ".jsx", ".rs", ".RS", ".Rs",
-        ".java", ".go", ".txt", ".md", ".pyw", ".pyi", ".rst", ".c", "", "#!py", "#!sh"]
+        ".java", ".go", ".txt", ".md", ".pyw", ".pyi", ".rst", ".c", "", "#!py", "#!sh", "#!py-bom", "@txt->py", "@py->txt", "@->py"]
+# "#!py-bom": a python shebang behind a byte-order mark; "@a->b": a symbolic link whose own name has suffix a (none for "@->py") and
+# whose target has suffix b: a file is what its own name (and, without suffix, its first line) says
 NOT_SOURCE = {"file-placement", "file-header", "lazy-ignores"}
 
 # settings of other linters' sections that must not change command X's findings
@@ -54,6 +56,13 @@ def file_for(ext: str, content_key: str, idx: int):
         return f"script{idx}", "#!/usr/bin/env python3\n" + body, "", "#!/usr/bin/env python3"
     if ext == "#!sh":
         return f"script{idx}", "#!/bin/sh\n" + body, "", "#!/bin/sh"
+    if ext == "#!py-bom":
+        return f"script{idx}", "\ufeff#!/usr/bin/env python3\n" + body, "", "#!/usr/bin/env python3"
+    if ext.startswith("@"):
+        own, target = ext[1:].split("->")
+        own_suffix = "." + own if own else ""
+        # name of the link, content of the target, and "LINK:<target name>" smuggled in front of the text for impl_case
+        return f"link{idx}{own_suffix}", f"LINK:real{idx}.{target}\n" + body, own_suffix, body.split("\n")[0]
     return f"mod{idx}{ext}", body, ext, body.split("\n")[0]
 
 
@@ -64,7 +73,13 @@ def impl_case(args):
     proj.mkdir(parents=True)
     out = {"errors": [], "by_cmd": {}}
     try:
-        (proj / name).write_text(text)
+        if text.startswith("LINK:"):
+            head, _, real_text = text.partition("\n")
+            (proj / "targets").mkdir()
+            (proj / "targets" / head[5:]).write_text(real_text)
+            (proj / name).symlink_to(Path("targets") / head[5:])
+        else:
+            (proj / name).write_text(text, encoding="utf-8")
         if cfg is not None:
             (proj / ".thailint.yaml").write_text(yaml.safe_dump(cfg))
         for c in cmds:
@@ -183,7 +198,7 @@ def run(tier: str, seed: int, st: core.ProofStatus) -> core.Result:
     try:
         if True:
             impls = core.pmap(impl_case, work, procs=16, chunksize=1)
-        pair_work = [(k, ext, ck, str(root)) for k, (ext, ck) in enumerate((e, c) for e in EXTS for c in ("py", "ts", "rs"))]
+        pair_work = [(k, ext, ck, str(root)) for k, (ext, ck) in enumerate((e, c) for e in EXTS if not e.startswith("@") for c in ("py", "ts", "rs"))]
         pairs = core.pmap(pair_case, pair_work, procs=16)
         multis = core.pmap(multi_case, [(k, o, ["nesting", "magic-numbers", "print-statements"], str(root)) for k, o in enumerate(orders)], procs=16)
     finally:
@@ -280,6 +295,20 @@ def run(tier: str, seed: int, st: core.ProofStatus) -> core.Result:
             if lang == "unknown" and c not in NOT_SOURCE and o["vs"]:
                 problems.append(f"unrecognised file type but `thailint {c}` reported {o['vs'][:2]}")
                 fails = True
+        # a file detected as language L holding L's trigger content gets what the same content gets under L's plain suffix
+        canon = {"python": ".py", "typescript": ".ts", "rust": ".rs"}
+        if m["cfg"] is None and lang in canon and {"python": "py", "typescript": "ts", "rust": "rs"}[lang] == m["content"] and m["ext"] != canon[lang]:
+            j = base_index.get((canon[lang], m["content"]))
+            if j is not None:
+                for c, o in im["by_cmd"].items():
+                    if c in NOT_SOURCE:
+                        continue
+                    a = sorted(v[0] for v in o["vs"])
+                    b = sorted(v[0] for v in impls[j]["by_cmd"].get(c, {"vs": []})["vs"])
+                    if a != b and not (lang == "typescript" and m["ext"].lower() in (".js", ".jsx", ".tsx")):
+                        problems.append(f"`thailint {c}` on {m['name']} (detected as {lang}) reports rules {Counter(a).most_common(3)}, the same content as {canon[lang]} gets {Counter(b).most_common(3)}")
+                        fails = True
+                res.bump("same_content_pairs")
         # case-insensitivity: same content under suffixes that differ only in letter case
         if m["cfg"] is None and m["ext"].lower() != m["ext"] and not m["ext"].startswith("#"):
             j = base_index.get((m["ext"].lower(), m["content"]))
